@@ -28,8 +28,9 @@ var theProg *Prog
 type newFnInfo struct {
 	any     int // 0 unknown, 1 some function is transparent, 2 none
 	ref     map[string]bool
-	renamed map[string]*ssa.Function // reference name -> the function that carries another name today
-	oldName map[*ssa.Function]string // the reverse
+	renamed map[string]*ssa.Function              // reference name -> the function that carries another name today
+	oldName map[*ssa.Function]string              // the reverse
+	tsite   map[*ssa.Function]ssa.CallInstruction // memo of transparentSite
 	sites   map[*ssa.Function][]ssa.CallInstruction
 	escaped map[*ssa.Function]bool
 }
@@ -153,6 +154,21 @@ func (p *Prog) transparentSite(f *ssa.Function) ssa.CallInstruction {
 		return nil
 	}
 	f = origin(f)
+	if p.nf != nil {
+		if cs, ok := p.nf.tsite[f]; ok {
+			return cs
+		}
+	}
+	cs := p.transparentSite1(f)
+	nf := p.newFns()
+	if nf.tsite == nil {
+		nf.tsite = map[*ssa.Function]ssa.CallInstruction{}
+	}
+	nf.tsite[f] = cs
+	return cs
+}
+
+func (p *Prog) transparentSite1(f *ssa.Function) ssa.CallInstruction {
 	if f.Parent() != nil || f.Synthetic != "" || len(f.Blocks) == 0 || !inCanopyRaw(f) {
 		return nil
 	}
@@ -397,7 +413,48 @@ func sigKey(f *ssa.Function) string {
 	if r := f.Signature.Recv(); r != nil {
 		recv = r.Type().String()
 	}
-	return pk + "|" + recv + "|" + f.Signature.String()
+	// parameter and result TYPES only: renaming a parameter is not a change of signature
+	var ps, rs []string
+	for i := 0; i < f.Signature.Params().Len(); i++ {
+		ps = append(ps, f.Signature.Params().At(i).Type().String())
+	}
+	for i := 0; i < f.Signature.Results().Len(); i++ {
+		rs = append(rs, f.Signature.Results().At(i).Type().String())
+	}
+	v := ""
+	if f.Signature.Variadic() {
+		v = "..."
+	}
+	return pk + "|" + recv + "|(" + strings.Join(ps, ",") + v + ")(" + strings.Join(rs, ",") + ")"
+}
+
+// attribNames: the reference functions whose code f is part of. A function known on the reference tree is itself; a new
+// helper is its callers' (transitively): one caller for a transparent helper, all of them for a shared one.
+func (p *Prog) attribNames(f *ssa.Function) []string {
+	seen := map[*ssa.Function]bool{}
+	set := map[string]bool{}
+	var walk func(g *ssa.Function, depth int)
+	walk = func(g *ssa.Function, depth int) {
+		g = enclosing(origin(g))
+		if g == nil || seen[g] {
+			return
+		}
+		seen[g] = true
+		if depth < 4 && p.isNewNamed(g) {
+			for _, site := range p.newFns().sites[origin(g)] {
+				walk(site.Parent(), depth+1)
+			}
+			return
+		}
+		set[fnName(g)] = true
+	}
+	walk(f, 0)
+	var out []string
+	for n := range set {
+		out = append(out, n)
+	}
+	sort.Strings(out)
+	return out
 }
 
 // bodyPrint: a fingerprint of what a function does that ignores names of locals, positions and constants: the sequence
